@@ -84,6 +84,12 @@ PROGRAMS = [
     ("soup128", "soup", 128, 1e-6, 4e-7, "q", True, "same, 8192 triangles / 24576 open vertices"),
     ("soup16", "soup", 16, 1e-6, 4e-7, "q", True, "same, 384 open vertices (below 512)"),
     ("soup256", "soup", 256, 1e-6, 4e-7, "t", False, "same, 32768 triangles / 98304 open vertices"),
+    ("rc60", "refcube", 60, 10, 0, "q", True, "Cube.Refine(60) + rotated/translated Cube.Refine(60): 2 x 129600 halfedges, raw result > 1e5 halfedges (FlagStore::run_par, n > 1e5) with thousands of flagged collapsible edges"),
+    ("rc60s", "refcube", 60, 10, 1, "q", True, "same, Subtract"),
+    ("rc60i", "refcube", 60, 7, 2, "q", False, "same, Intersect, other angle"),
+    ("rc100", "refcube", 100, 10, 0, "t", False, "Cube.Refine(100) pair, Add (360000 halfedges each)"),
+    ("rc100s", "refcube", 100, 10, 1, "t", False, "Cube.Refine(100) pair, Subtract"),
+    ("rc100i", "refcube", 100, 10, 2, "t", False, "Cube.Refine(100) pair, Intersect"),
     ("dedupe", "dedupe", 100, 0, 0, "q", True, "MeshGL import with a 4-manifold edge, 15k halfedges > 1e4: DedupeEdges/SplitPinchedVerts par paths"),
     ("dedupe_s", "dedupe", 32, 0, 0, "q", True, "same below 1e4"),
     ("simplify", "simplify", 100, 23, 0.02, "q", False, "Simplify of a Boolean"),
